@@ -1,6 +1,6 @@
 (* Pinned statements of C11 (generated once by tools/mkpins.py from coq/props/C11.v, then committed). *)
 From DV Require Import Model.Base Model.Parser Model.Header Model.Readers Model.Mutate Spec.NameSpec Spec.PacketSpec Spec.RecordSpec Spec.PlainSpec
-  Proofs.Hoare Proofs.WalkSkip Proofs.PlainWf Proofs.InsertSpec Proofs.DeleteInv Proofs.DeleteWalk props.C11.
+  Proofs.Hoare Proofs.WalkSkip Proofs.PlainWf Proofs.InsertSpec Proofs.DeleteInv Proofs.Totality Proofs.DeleteWalk props.C11.
 Check (C11_walk_terminates : forall (A : Type) (D : A -> bool) (l : list A),
   exists r, awalk D ((ndel D l + 1) * (length l + 1)) l 0 [] = Some r).
 Print Assumptions C11_walk_terminates.
@@ -32,3 +32,8 @@ Check (C11_section_offsets : forall v qls qt lA lN lR, dinv v -> reading (pp_pac
   pp_offset_question v = Some 12 /\ pp_offset_answers v = first_off lA /\ pp_offset_nameservers v = first_off lN /\
   pp_offset_additional v = first_off lR).
 Print Assumptions C11_section_offsets.
+Check (C11_delete_succeeds : forall v it qls qt lA lN lR r x,
+  dinv v -> reading (pp_packet v) qls qt lA lN lR -> In (r, x) (lA ++ lN ++ lR) -> is_opt r = false ->
+  it_offset it = Some (rv_off r) -> it_name_end it = rv_name_end r -> it_offset_next it = rv_name_end r + 10 + rv_rdlen r ->
+  exists s', m_delete (v, it) = (s', Ok tt)).
+Print Assumptions C11_delete_succeeds.
